@@ -34,7 +34,10 @@ MatChecks(e) ==
       diag      |-> \A i \in 1..n : FEq(D(e, i, i), FInt(0)),
       range     |-> \A p \in pairs : FLe(FInt(0), D(e, p[1], p[2])) /\ FLe(D(e, p[1], p[2]), Cap),
       zeroWhenEqual |-> \A p \in pairs : ~differs(p) => FEq(D(e, p[1], p[2]), FInt(0)),
-      optimal   |-> \A p \in Judged(e) : LET m == MaxOf(e, p) IN m.near /\ m.grid]
+      optimal   |-> \A p \in Judged(e) : LET m == MaxOf(e, p) IN m.near /\ m.grid,
+      \* the model the likelihood is computed with: built for the frequencies in use, which are the alignment's own when asked
+      eigensystem |-> LET ch == EigenChecks(es) IN \A k \in DOMAIN ch : ch[k],
+      frequencies |-> e.modelfreqs \/ LET f == EmpFreqs(rows, sel, e.wts) IN \A i \in 1..20 : FClose(es.pi[i], f[i], FParse("1e-9"), FParse("1e-12"))]
 \* the pair has an unambiguous difference somewhere but no jointly informative selected site (reported outside [0,20]: known finding)
 NoJointSite(e) == LET rows == e.rows  sel == Selected(rows, e.rmgaps) IN
                   \E i, j \in 1..Len(rows) : i < j /\ DiffersUnambiguously(rows[i], rows[j]) /\ TotalCount(rows[i], rows[j], sel, e.wts) = 0
